@@ -352,12 +352,18 @@ def trace_inserts(name, kind):
     return False
 
 
+def light_trace(name, kind):
+    """Only the objects handed to the core are printed (linear): every synthetic and Linux load that is too large for the full trace."""
+    return kind in ("synthetic", "synthetic2", "corpus", "synthetic-deep", "linux", "linux-type-none", "linux-io-filters", "linux-default",
+                    "memory-filters", "linux-mutated") and not name.startswith("x86:")
+
+
 def script_of(indexed):
     out = []
     for i, (name, lines, kind) in indexed:
         out.append("echo CASE %d" % i)
         out.append("new")
-        out.append("phases 2" if trace_inserts(name, kind) else "phases 1")
+        out.append("phases 2" if trace_inserts(name, kind) else "phases 3" if light_trace(name, kind) else "phases 1")
         if not any(l.startswith("bindself ") for l in lines):
             out.append("bindself all")
         for var in ("HWLOC_USE_NUMA_DISTANCES",):      # several cases share one process: no leftovers from the previous one
